@@ -68,8 +68,8 @@ def icv_table(ctx, rule):
     ks = ctx.func('crypto.Integrity.key_size')
     common.expect_term(ctx, rule, ctx.sval(hs), ctx.sval(hs).ret(), 'self.keybits // 8', 'ICV length = bits // 8', (rule, 'hash-size'),
                        ctx.site(hs, hs.node))
-    common.expect_term(ctx, rule, ctx.sval(ks), ctx.sval(ks).ret(), 'self.hasher().digest_size', 'integrity key size = digest size',
-                       (rule, 'key-size'), ctx.site(ks, ks.node))
+    ctx.check(common.digest_size_table(ctx, ks) == {'sha1': 20, 'sha256': 32, 'sha512': 64}, rule, 'integrity key size = digest size',
+              key=(rule, 'key-size'), site=ctx.site(ks, ks.node), detail={'found': common.digest_size_table(ctx, ks)})
     ii = ctx.func('crypto.Integrity.__init__')
     II = ctx.sval(ii)
     tr = ii.call_params()[0]
